@@ -754,6 +754,13 @@ func c04Finish(s *c04State, judge bool) {
 	}
 	if judge {
 		s.judge()
+	} else {
+		// child: multiplicities for the parent
+		var b strings.Builder
+		for _, e := range s.emitted {
+			fmt.Fprintf(&b, "%s %d\n", e.id, e.count)
+		}
+		os.WriteFile(filepath.Join(c.Out, "counts.txt"), []byte(b.String()), 0o644)
 	}
 }
 
